@@ -10,6 +10,7 @@ import Emmet.Driver.Style
 import Emmet.Driver.ExpandG
 import Emmet.Spec.C06
 import Emmet.Driver.Action
+import Emmet.Driver.Stream
 
 /-- model driver: `driver <mode>` reads one request per line on stdin and answers one line per request -/
 def main (args : List String) : IO UInt32 := do
@@ -26,5 +27,6 @@ def main (args : List String) : IO UInt32 := do
   | ["expandg"] => Drv.ExpandG.main; return 0
   | ["resolve"] => Drv.ExpandG.mainResolve; return 0
   | ["action"] => Drv.Action.main; return 0
+  | ["stream"] => Drv.Stream.main; return 0
   | ["selfcheck"] => IO.println s!"C06.keyOrderAgrees {EmmetProps.keyOrderAgrees}"; return 0
   | _ => IO.eprintln "usage: driver <mode>"; return 2
